@@ -41,6 +41,85 @@ type testbed struct {
 	h2    *bed.Stub // TLS + HTTP/2 net/http stub (thorough tier)
 	h2s   sync.Map  // id -> *bed.RawReply
 	token string
+
+	// deepening pass: more clusters that share or toggle something
+	hTwin string       // second cluster whose only endpoint is fwd[0] (two clusters, one upstream)
+	hMix  string       // one cluster, two policies: configmaps -> max-in-flight 0, everything else unlimited
+	sMix  *bed.RawStub // its endpoint
+	hSat  string       // max-in-flight 1: refused only while a request is in flight
+	sSat  *bed.RawStub
+	hFlap string // deleted and re-created under its name again and again
+	sFlap *bed.RawStub
+	flapPresent bool
+	hDead string // endpoint was healthy, then its listener went away (connection refused)
+	front  *bed.Front // TLS + HTTP/2 front door
+	front6 *bed.Front // [::1] front door (nil without IPv6 loopback)
+	// history of the forwarding cluster (only whoever holds the test bed writes)
+	fwdEvents  int
+	fwdSwapped bool
+}
+
+type route struct {
+	name  string
+	host  string
+	stubs []*bed.RawStub
+}
+
+func (tb *testbed) fwdSpec() bed.ClusterSpec {
+	servers := []string{tb.fwd[0].URL, tb.fwd[1].URL}
+	if tb.fwdSwapped {
+		servers[0], servers[1] = servers[1], servers[0]
+	}
+	return bed.ClusterSpec{Name: tb.hFwd, Servers: servers}
+}
+
+func (tb *testbed) flapSpec() bed.ClusterSpec { return bed.ClusterSpec{Name: tb.hFlap, Servers: []string{tb.sFlap.URL}} }
+
+// applyWait (re-)delivers a cluster object and waits for its enabled endpoints.
+func (tb *testbed) applyWait(spec bed.ClusterSpec) error {
+	obj := bed.BuildCluster(spec)
+	if sr := tb.gw.Apply(obj); sr.Err != nil || sr.Panic != nil || sr.Requeue {
+		return fmt.Errorf("controller did not apply cluster %s: %+v", spec.Name, sr)
+	}
+	if !tb.gw.WaitAllReady(obj, watchdog) {
+		return fmt.Errorf("endpoints of %s did not become ready within the watchdog", spec.Name)
+	}
+	return nil
+}
+
+// readyAgain: closing a transport may cancel a health probe in flight and mark the endpoint unhealthy until the next
+// probe; ask for one instead of waiting for the 5 s ticker.
+func (tb *testbed) readyAgain(host, url string) error {
+	ci, ok := tb.gw.Cluster(host)
+	if !ok {
+		return fmt.Errorf("cluster %s is gone", host)
+	}
+	ep, ok := ci.Endpoints.Load(url)
+	if !ok {
+		return fmt.Errorf("endpoint %s of %s is gone", url, host)
+	}
+	if !ep.IsReady() {
+		ep.TriggerHealthCheck()
+		if !tb.gw.WaitReady(host, url, true, watchdog) {
+			return fmt.Errorf("endpoint %s of %s did not become ready again within the watchdog", url, host)
+		}
+	}
+	return nil
+}
+
+func (tb *testbed) resetFwdTransport(k int) error {
+	ci, ok := tb.gw.Cluster(tb.hFwd)
+	if !ok {
+		return fmt.Errorf("cluster %s is gone", tb.hFwd)
+	}
+	ep, ok := ci.Endpoints.Load(tb.fwd[k].URL)
+	if !ok {
+		return fmt.Errorf("endpoint %s is gone", tb.fwd[k].URL)
+	}
+	if err := ep.ResetTransport(); err != nil {
+		return err
+	}
+	return tb.readyAgain(tb.hFwd, tb.fwd[k].URL)
 }
 
 func (tb *testbed) stubs() []*bed.RawStub { return append(append([]*bed.RawStub(nil), tb.fwd...), tb.aux...) }
@@ -105,7 +184,16 @@ func newTestbed(idx int, withH2 bool) (*testbed, error) {
 	tb.fwd = []*bed.RawStub{mk("fwd-a"), mk("fwd-b")}
 	sFC, sDis, sUnh := mk("fc"), mk("dis"), mk("unh")
 	sUnh.SetHealth(bed.Health500)
-	tb.aux = []*bed.RawStub{sFC, sDis, sUnh}
+	tb.sMix, tb.sSat, tb.sFlap = mk("mix"), mk("sat"), mk("flap")
+	sDead := mk("dead")
+	tb.aux = []*bed.RawStub{sFC, sDis, sUnh, tb.sMix, tb.sSat, tb.sFlap, sDead}
+	tb.hTwin = fmt.Sprintf("c04-%d-twin.test", idx)
+	tb.hMix = fmt.Sprintf("c04-%d-mix.test", idx)
+	tb.hSat = fmt.Sprintf("c04-%d-sat.test", idx)
+	tb.hFlap = fmt.Sprintf("c04-%d-flap.test", idx)
+	tb.hDead = fmt.Sprintf("c04-%d-dead.test", idx)
+	tb.front = bed.NewH2Front(tb.gw.Handler)
+	tb.front6 = bed.NewIPv6Front(tb.gw.Handler)
 	tb.hFwd = fmt.Sprintf("c04-%d-fwd.test", idx)
 	tb.hFC = fmt.Sprintf("c04-%d-fc.test", idx)
 	tb.hDis = fmt.Sprintf("c04-%d-dis.test", idx)
@@ -150,6 +238,33 @@ func newTestbed(idx int, withH2 bool) (*testbed, error) {
 	if err := apply(bed.ClusterSpec{Name: tb.hUnh, Servers: []string{sUnh.URL}}, false); err != nil {
 		return tb, err
 	}
+	maxInflight := func(name string, max int32) proxyv1alpha1.FlowControlSchema {
+		return proxyv1alpha1.FlowControlSchema{Name: name, FlowControlSchemaConfiguration: proxyv1alpha1.FlowControlSchemaConfiguration{
+			MaxRequestsInflight: &proxyv1alpha1.MaxRequestsInflightFlowControlSchema{Max: max}}}
+	}
+	if err := apply(bed.ClusterSpec{Name: tb.hTwin, Servers: []string{tb.fwd[0].URL}}, true); err != nil {
+		return tb, err
+	}
+	cmPolicy := proxyv1alpha1.DispatchPolicy{Strategy: proxyv1alpha1.RoundRobin, FlowControlSchemaName: "no-configmaps",
+		Rules: []proxyv1alpha1.DispatchPolicyRule{{Verbs: []string{"*"}, APIGroups: []string{"*"}, Resources: []string{"configmaps"}}}}
+	if err := apply(bed.ClusterSpec{Name: tb.hMix, Servers: []string{tb.sMix.URL}, Policies: []proxyv1alpha1.DispatchPolicy{cmPolicy, bed.CatchAllPolicy(nil, "")},
+		Schemas: []proxyv1alpha1.FlowControlSchema{maxInflight("no-configmaps", 0)}}, true); err != nil {
+		return tb, err
+	}
+	if err := apply(bed.ClusterSpec{Name: tb.hSat, Servers: []string{tb.sSat.URL}, Policies: []proxyv1alpha1.DispatchPolicy{bed.CatchAllPolicy(nil, "one-in-flight")},
+		Schemas: []proxyv1alpha1.FlowControlSchema{maxInflight("one-in-flight", 1)}}, true); err != nil {
+		return tb, err
+	}
+	if err := apply(tb.flapSpec(), true); err != nil {
+		return tb, err
+	}
+	tb.flapPresent = true
+	// the dead cluster's endpoint is found healthy, then its listener goes away: connections are refused until the next
+	// probe (5 s ticker, or the one the dispatcher triggers) marks it unhealthy
+	if err := apply(bed.ClusterSpec{Name: tb.hDead, Servers: []string{sDead.URL}}, true); err != nil {
+		return tb, err
+	}
+	sDead.Close()
 	// the unhealthy endpoint must have been probed at least once and found unhealthy (it starts as not ready anyway)
 	if !vkit.WaitFor(watchdog, func() bool { return sUnh.ProbeCount() > 0 }) {
 		return tb, fmt.Errorf("the unhealthy stub was never probed within the watchdog")
@@ -158,6 +273,8 @@ func newTestbed(idx int, withH2 bool) (*testbed, error) {
 }
 
 func (tb *testbed) close() {
+	tb.front.Close()
+	tb.front6.Close()
 	if tb.gw != nil {
 		tb.gw.Close()
 	}
@@ -196,14 +313,20 @@ func decodeStatus(contentType string, body []byte) (*metav1.Status, string, erro
 	return st, gvk.Kind, nil
 }
 
-var termClasses = []string{"429", "429-events", "503-unknown-host", "503-disabled", "503-unhealthy", "403-impersonation", "401", "500-malformed-impersonation"}
+var termClasses = []string{"429", "429-events", "503-unknown-host", "503-disabled", "503-unhealthy", "403-impersonation", "401", "500-malformed-impersonation",
+	// deepening pass: a policy-scoped limit next to an unlimited catch-all in the same cluster; a limit that is full only while a
+	// request is in flight; a cluster that was proxied a moment ago and is deleted now; an endpoint believed ready that refuses connections
+	"429-policy", "429-saturated", "503-deleted-cluster", "502-upstream-refused"}
 
 func TestCheck(t *testing.T) {
 	vkit.Run(t, "C04", "exploration", func(r *vkit.R) {
 		r.Rule("each exchange = method x k8s-shaped or random path (escaped bytes, sub-delims, non-canonical escapes, empty/dot segments, trailing slash) x query (repeated keys, empty values, '+', %20, no '=', ';', malformed escapes) x " +
 			"0-12 headers (multi-valued, random wire casing, Te, Connection-nominated, X-Forwarded-For, User-Agent, Accept-Encoding) x body 0..2MiB fixed or chunked x upstream reply (21 status codes, 0-8 headers, fixed/chunked/close-delimited/no body, trailers, scripted gzip) " +
 			"written and read byte-exact on raw sockets on both sides of the real handler chain; plus terminated classes (429 max-in-flight 0, 429 on events, 503 unknown host / disabled / unhealthy endpoint, 403 refused impersonation, 401, malformed impersonation) with the same request generator. " +
-			"A third phase sends barrier-started batches of 16 distinct exchanges at the same moment through one gateway to one cluster, each judged by its own request id. " +
+			"A third phase sends barrier-started batches of 16 distinct exchanges at the same moment through one gateway to one cluster, each judged by its own request id, a third of the batches racing with a re-delivery of the cluster object or a transport reset; a fourth sends pairs over one client connection (keep-alive / pipelined). " +
+			"Deepening: extension methods, body/reply sizes at buffer boundaries, 80 header lines, 48 KiB header values, 4 KiB paths, 600-parameter queries; clients speaking HTTP/1.0, HTTP/2 over TLS, from ::1, with Expect: 100-continue; an upstream connection that dies once (every retried copy is judged); " +
+			"routes: a twin cluster on the same upstream endpoint, a cluster with a policy-scoped limit next to an unlimited catch-all, a cluster deleted and re-created again and again; history of the forwarding cluster (transport reset, servers re-ordered, delete + re-create); " +
+			"terminated classes 429-policy, 429-saturated (max-in-flight 1 held by an in-flight request), 503-deleted-cluster, 502-upstream-refused. " +
 			"Non-trivial = anything beyond a bare GET with a 200 reply; distinct = hash of the request bytes' shape and the reply script.")
 		r.Assume("the stub upstreams speak correct HTTP/1.1 (content-encoding gzip only with a real gzip stream; no mid-body failures)")
 		r.Assume("API-shaped paths the generic WithRequestInfo filter cannot parse are answered by k8s.io/apiserver with a plain-text 500 before kubegateway code runs: excluded and counted (excluded_unparsable_api_path)")
@@ -279,7 +402,41 @@ func TestCheck(t *testing.T) {
 			defer func() { pool <- tb }()
 			runConcurrentBatch(r, tb, base, batchSize, g)
 		})
+		// fourth phase: two distinct exchanges over one client connection (keep-alive reuse / pipelined)
+		np := r.N(800, 8000)
+		r.Parallel(np, workers, func(j int, g *vkit.Rand) {
+			base := n + m + nb*batchSize + 2*j
+			if only >= 0 && only != base && only != base+1 {
+				return
+			}
+			tb := <-pool
+			defer func() { pool <- tb }()
+			runForwardedPair(r, tb, base, g)
+		})
 		if only < 0 {
+			r.Require(r.Counter("forwarded_via_keepalive") >= int64(np/2) && r.Counter("forwarded_via_pipelined") >= int64(np/4), "too few keep-alive / pipelined exchanges were forwarded")
+			for _, v := range []string{"h1.0-client", "h2-client", "expect-continue", "upstream-connection-dies-once"} {
+				r.Require(r.Counter("forwarded_via_"+v) >= int64(n/200), "too few forwarded exchanges via "+v)
+			}
+			if beds[0].front6 != nil {
+				r.Require(r.Counter("forwarded_via_ipv6-peer") >= int64(n/200), "too few forwarded exchanges from an IPv6 peer")
+			} else {
+				r.Count("no_ipv6_loopback_in_sandbox", 1)
+			}
+			for _, v := range []string{"twin-cluster-same-upstream", "two-policy-cluster", "recreated-cluster"} {
+				r.Require(r.Counter("forwarded_route_"+v) >= int64(n/100), "too few forwarded exchanges on route "+v)
+			}
+			r.Require(r.Counter("flap_cluster_deleted") >= 5 && r.Counter("flap_cluster_recreated") >= 5, "the delete / re-create cycle of a cluster hardly ran")
+			r.Require(r.Counter("fwd_cluster_transport_resets")+r.Counter("fwd_cluster_redelivered_swapped")+r.Counter("fwd_cluster_recreated") >= 6 && r.Counter("forwarded_after_fwd_cluster_config_event") >= int64(n/20),
+				"the forwarding cluster hardly lived through config events")
+			r.Require(r.Counter("upstream_copies_beyond_first_judged") >= 3, "no retried copy of a request was seen upstream")
+			r.Require(r.Counter("expect_continue_got_100") >= 3, "Expect: 100-continue was never answered with an interim 100")
+			r.Require(r.Counter("concurrent_batches_with_redeliver")+r.Counter("concurrent_batches_with_redeliver-swapped") >= int64(nb/10) && r.Counter("concurrent_batches_with_reset-transport") >= int64(nb/25), "too few batches raced with a config event")
+			for _, b := range []string{"80-headers", "long-header-value", "long-path", "long-query"} {
+				r.Require(r.Counter("forwarded_boundary_"+b) >= int64(n/400), "boundary shape hardly forwarded: "+b)
+			}
+			r.Require(r.Counter("saturated_slot_free_again_forwarded") >= int64(n/400), "the saturated limit never let a request through again after release")
+			r.Require(r.Counter("terminated_via_h1.0-client") >= int64(n/100) && r.Counter("terminated_via_h2-client") >= int64(n/100), "too few terminated requests from HTTP/1.0 / HTTP/2 clients")
 			r.Require(r.Counter("concurrent_exchanges") == int64(nb*batchSize), "the concurrent phase did not run")
 			r.Require(r.Counter("body_then_big_reply_exchanges") == int64(m), "the request-body + large-reply phase did not run")
 			r.Require(r.Counter("forwarded_judged") >= int64(n/2), "too few forwarded exchanges were judged")
@@ -353,28 +510,64 @@ func fromH2(s bed.Seen) seenUp {
 // transport still owns it); the phase exists so that the outcome does not depend on luck in the mixed workload.
 func runBodyThenBigReply(r *vkit.R, tb *testbed, i int, g *vkit.Rand) {
 	r.Count("body_then_big_reply_exchanges", 1)
-	runForwardedShape(r, tb, i, g, true, false, true, nil)
+	f := prepForwarded(r, tb, i, g, fwdOpts{big: true, bodyThenBig: true})
+	if f == nil {
+		return
+	}
+	resp := f.send(tb)
+	judgeForwarded(r, tb, f, &resp)
 }
 
 func runForwarded(r *vkit.R, tb *testbed, i int, g *vkit.Rand, big bool, upgrade bool) {
-	runForwardedShape(r, tb, i, g, big, upgrade, false, nil)
+	if os.Getenv("C04_PROF") != "" {
+		t0 := time.Now()
+		defer func() { r.Count("prof_ms_forwarded", int(time.Since(t0).Milliseconds())) }()
+	}
+	f := prepForwarded(r, tb, i, g, fwdOpts{big: big, upgrade: upgrade, history: true, routes: true, vias: true})
+	if f == nil {
+		return
+	}
+	resp := f.send(tb)
+	judgeForwarded(r, tb, f, &resp)
+}
+
+// runForwardedPair sends two distinct exchanges over ONE client connection (keep-alive reuse or pipelined); each is judged
+// by its own request id. What is forwarded for the second must not depend on the first.
+func runForwardedPair(r *vkit.R, tb *testbed, base int, g *vkit.Rand) {
+	via := "keepalive"
+	if g.Chance(0.4) {
+		via = "pipelined"
+	}
+	var fs [2]*fwd
+	for k := 0; k < 2; k++ {
+		fs[k] = prepForwarded(r, tb, base+k, g.Sub(k), fwdOpts{routes: true, pairVia: via})
+		if fs[k] == nil {
+			return
+		}
+	}
+	resps := bed.RawDoSeq(tb.gw.Addr(), []*bed.RawRequest{fs[0].x.Req, fs[1].x.Req}, via == "pipelined", watchdog)
+	r.Count("pairs_"+via, 1)
+	if resps[1].Err != nil && resps[0].Err == nil {
+		// the gateway announced "Connection: close" on the first answer (legal) or ended the connection: the second request
+		// is unanswered; it is judged only if it reached an upstream all the same
+		r.Count("pair_second_unanswered_connection_closed", 1)
+		judgeForwarded(r, tb, fs[0], &resps[0])
+		fs[1].unanswered = true
+		resps[1].Err = nil
+		judgeForwarded(r, tb, fs[1], &resps[1])
+		return
+	}
+	judgeForwarded(r, tb, fs[0], &resps[0])
+	judgeForwarded(r, tb, fs[1], &resps[1])
 }
 
 // batch is one barrier-started group of exchanges sent at the same moment through the same gateway to the same cluster.
 type batch struct {
 	mu      sync.Mutex
 	targets map[string]string // request id -> request-target the client sent
-	ready   sync.WaitGroup
-	start   chan struct{}
-}
-
-// gate registers the member and blocks until every member of the batch is about to send.
-func (b *batch) gate(id, target string) {
-	b.mu.Lock()
-	b.targets[id] = target
-	b.mu.Unlock()
-	b.ready.Done()
-	<-b.start
+	// racingReset: a transport of the cluster is rebuilt while the batch is in flight; requests it cancels are answered by
+	// the gateway with an error object
+	racingReset bool
 }
 
 // uriOfAnother reports the concurrent request whose path (when this one's path differs) or query (when this one's
@@ -409,41 +602,184 @@ func (b *batch) uriOfAnother(id string, pathDiffers, queryDiffers bool, stubPath
 // runConcurrentBatch sends k distinct exchanges at once through one gateway to one cluster (the forwarding cluster: two
 // endpoints, round robin, so every endpoint is picked by several requests that are in flight together) and judges each
 // by its own request id with the ordinary forwarded oracle. What a request is forwarded with must not depend on what
-// else is in flight.
+// else is in flight - nor on the cluster object being re-delivered (unchanged, or with its servers listed in the other
+// order) or an endpoint transport being rebuilt at that moment.
 func runConcurrentBatch(r *vkit.R, tb *testbed, base int, k int, g *vkit.Rand) {
-	bt := &batch{targets: map[string]string{}, start: make(chan struct{})}
-	bt.ready.Add(k)
+	bt := &batch{targets: map[string]string{}}
+	event := ""
+	switch e := g.Intn(100); {
+	case e < 12:
+		event = "redeliver"
+	case e < 24:
+		event = "redeliver-swapped"
+	case e < 34:
+		event = "reset-transport"
+		bt.racingReset = true
+	}
+	fs := make([]*fwd, k)
+	for j := 0; j < k; j++ {
+		fs[j] = prepForwarded(r, tb, base+j, g.Sub(j), fwdOpts{vias: true, bt: bt})
+		if fs[j] == nil {
+			return
+		}
+		bt.targets[fs[j].id] = fs[j].x.Req.Target
+		fs[j].x.Racing = event
+	}
+	resps := make([]bed.RawResponse, k)
+	start := make(chan struct{})
 	var wg sync.WaitGroup
 	for j := 0; j < k; j++ {
-		gj := g.Sub(j)
 		wg.Add(1)
 		go func(j int) {
 			defer wg.Done()
-			runForwardedShape(r, tb, base+j, gj, false, false, false, bt)
+			<-start
+			resps[j] = fs[j].send(tb)
 		}(j)
 	}
-	bt.ready.Wait()
-	close(bt.start)
+	var evErr error
+	if event != "" {
+		wg.Add(1)
+		go func() {
+			defer wg.Done()
+			<-start
+			switch event {
+			case "redeliver":
+				evErr = tb.applyWait(tb.fwdSpec())
+			case "redeliver-swapped":
+				tb.fwdSwapped = !tb.fwdSwapped
+				evErr = tb.applyWait(tb.fwdSpec())
+			case "reset-transport":
+				evErr = tb.resetFwdTransport(0)
+			}
+		}()
+		r.Count("concurrent_batches_with_"+event, 1)
+	}
+	close(start)
 	wg.Wait()
+	if evErr != nil {
+		r.Inconclusive("config event during a concurrent batch: " + evErr.Error())
+		return
+	}
+	if event != "" {
+		for _, s := range tb.fwd {
+			if err := tb.readyAgain(tb.hFwd, s.URL); err != nil {
+				r.Inconclusive(err.Error())
+				return
+			}
+		}
+	}
+	for j := 0; j < k; j++ {
+		judgeForwarded(r, tb, fs[j], &resps[j])
+	}
 	r.Count("concurrent_batches", 1)
 	r.Count("concurrent_exchanges", k)
 }
 
-func runForwardedShape(r *vkit.R, tb *testbed, i int, g *vkit.Rand, big bool, upgrade bool, bodyThenBig bool, bt *batch) {
-	id := fmt.Sprintf("c04-%d", i)
-	overH2 := tb.h2 != nil && !upgrade && !bodyThenBig && bt == nil && g.Chance(0.25)
-	host := tb.hFwd
-	if overH2 {
-		host = tb.hH2
+type fwdOpts struct {
+	big, upgrade, bodyThenBig bool
+	history                   bool   // let the forwarding cluster live through a config event now and then
+	routes                    bool   // pick among the forwarding cluster, its twin, the two-policy cluster and the flapping one
+	vias                      bool   // pick among HTTP/1.1, HTTP/1.0, HTTP/2, IPv6 peer, Expect: 100-continue, an upstream connection that dies once
+	pairVia                   string // keepalive | pipelined
+	bt                        *batch
+}
+
+// fwd is one prepared forwarded exchange.
+type fwd struct {
+	i          int
+	id         string
+	x          *Exchange
+	rt         route
+	overH2     bool // TLS+h2 upstream stub
+	upgrade    bool
+	bt         *batch
+	peerIP     string
+	unanswered bool
+}
+
+func (f *fwd) send(tb *testbed) bed.RawResponse {
+	switch f.x.Via {
+	case "h2-client":
+		return tb.front.H2Do(f.x.Req, watchdog)
+	case "ipv6-peer":
+		return bed.RawDo(tb.front6.Addr, f.x.Req, watchdog)
+	}
+	return bed.RawDo(tb.gw.Addr(), f.x.Req, watchdog)
+}
+
+// fwdHistory lets the forwarding cluster live through what a long-running gateway sees: an endpoint transport rebuilt by
+// the health checker, the object re-delivered with its servers in the other order, the object deleted and re-created.
+func fwdHistory(r *vkit.R, tb *testbed, g *vkit.Rand) bool {
+	var err error
+	switch k := g.Intn(900); {
+	case k < 3:
+		r.Count("fwd_cluster_transport_resets", 1)
+		err = tb.resetFwdTransport(g.Intn(2))
+	case k < 5:
+		r.Count("fwd_cluster_redelivered_swapped", 1)
+		tb.fwdSwapped = !tb.fwdSwapped
+		err = tb.applyWait(tb.fwdSpec())
+	case k < 7:
+		r.Count("fwd_cluster_recreated", 1)
+		if sr := tb.gw.Delete(tb.hFwd); sr.Err != nil || sr.Panic != nil {
+			err = fmt.Errorf("controller did not delete %s: %+v", tb.hFwd, sr)
+		} else {
+			err = tb.applyWait(tb.fwdSpec())
+		}
+	default:
+		return true
+	}
+	if err != nil {
+		r.Inconclusive("config event on the forwarding cluster: " + err.Error())
+		return false
+	}
+	tb.fwdEvents++
+	return true
+}
+
+var (
+	mixFwdTemplates = []string{"/api/v1/namespaces/{p}/pods", "/api/v1/namespaces/{p}/secrets/{s}", "/apis/apps/v1/namespaces/{p}/deployments/{p}", "/version", "/x/{p}", "/api/v1/nodes/{s}", "/api/v1/namespaces/{p}/pods/{s}/log"}
+	mix429Templates = []string{"/api/v1/namespaces/{p}/configmaps", "/api/v1/namespaces/{p}/configmaps/{p}", "/api/v1/configmaps", "/api/v1/namespaces/{p}/configmaps/{p}/"}
+)
+
+func prepForwarded(r *vkit.R, tb *testbed, i int, g *vkit.Rand, o fwdOpts) *fwd {
+	f := &fwd{i: i, id: fmt.Sprintf("c04-%d", i), upgrade: o.upgrade, bt: o.bt, peerIP: "127.0.0.1"}
+	f.overH2 = tb.h2 != nil && !o.upgrade && !o.bodyThenBig && o.bt == nil && o.pairVia == "" && g.Chance(0.25)
+	f.rt = route{name: "fwd", host: tb.hFwd, stubs: tb.fwd}
+	path := ""
+	if f.overH2 {
+		f.rt = route{name: "h2-upstream", host: tb.hH2}
+	} else if o.routes {
+		switch k := g.Intn(100); {
+		case k < 70:
+		case k < 80:
+			f.rt = route{name: "twin-cluster-same-upstream", host: tb.hTwin, stubs: tb.fwd[:1]}
+		case k < 90:
+			f.rt = route{name: "two-policy-cluster", host: tb.hMix, stubs: []*bed.RawStub{tb.sMix}}
+			path = fill(g, g.Pick(mixFwdTemplates))
+		default:
+			f.rt = route{name: "recreated-cluster", host: tb.hFlap, stubs: []*bed.RawStub{tb.sFlap}}
+			if !tb.flapPresent {
+				if err := tb.applyWait(tb.flapSpec()); err != nil {
+					r.Inconclusive(err.Error())
+					return nil
+				}
+				tb.flapPresent = true
+				r.Count("flap_cluster_recreated", 1)
+			}
+		}
+	}
+	if o.history && f.rt.name == "fwd" && !fwdHistory(r, tb, g) {
+		return nil
 	}
 	var x *Exchange
-	if upgrade {
-		x = genUpgrade(g, id, host)
+	if o.upgrade {
+		x = genUpgrade(g, f.id, f.rt.host)
 	} else {
-		x = genRequest(g, id, host, big, "")
+		x = genRequest(g, f.id, f.rt.host, o.big, path)
 		x.Class = "forwarded"
-		genReply(g, x, big)
-		if bodyThenBig {
+		genReply(g, x, o.big)
+		if o.bodyThenBig {
 			x.Class = "forwarded-body-then-big-reply"
 			x.Req.Method = g.Pick([]string{"POST", "PUT", "PATCH"})
 			x.Req.Body, x.Req.Chunked, x.Req.SendCL = g.Bytes(g.Range(1, 3000)), false, true
@@ -461,28 +797,82 @@ func runForwardedShape(r *vkit.R, tb *testbed, i int, g *vkit.Rand, big bool, up
 			x.ReplyBody = len(x.Reply.Body)
 			x.Reply.Framing, x.Reply.ChunkSize, x.Reply.Trailers = g.Pick([]string{"cl", "chunked", "close"}), 0, nil
 		}
-		if overH2 {
+		if f.overH2 {
 			x.Class = "forwarded-h2"
 			normalizeForNetHTTPStub(x)
 		}
 	}
-	x.finish(g, bed.RawHeader{Name: wireCase(g, "Authorization"), Value: "Bearer " + tb.token})
-	if overH2 {
-		tb.h2s.Store(id, x.Reply)
-	} else {
-		for _, s := range tb.fwd {
-			s.Script(id, x.Reply)
+	x.Route = f.rt.name
+	x.Via = "h1"
+	var extra []bed.RawHeader
+	if o.pairVia != "" {
+		x.Via = o.pairVia
+		x.Class = "forwarded-" + o.pairVia
+	} else if o.vias && !o.upgrade && !o.bodyThenBig {
+		idempotent := (x.Req.Method == "GET" || x.Req.Method == "HEAD" || x.Req.Method == "OPTIONS") && len(x.Req.Body) == 0 && !x.Req.Chunked && !x.Req.SendCL
+		switch k := g.Intn(100); {
+		case k < 62:
+		case k < 70:
+			x.Via = "h1.0-client"
+			x.Req.Proto = "HTTP/1.0"
+			if x.Req.Chunked { // HTTP/1.0 has no chunked coding
+				x.Req.Chunked, x.Req.SendCL, x.Req.Trailers = false, true, nil
+			}
+		case k < 80:
+			x.Via = "h2-client"
+			x.Req.Trailers = nil
+		case k < 86:
+			if tb.front6 != nil {
+				x.Via = "ipv6-peer"
+				f.peerIP = "::1"
+			}
+		case k < 93:
+			if len(x.Req.Body) > 0 {
+				x.Via = "expect-continue"
+				x.Req.ExpectContinue = true
+				extra = append(extra, bed.RawHeader{Name: wireCase(g, "Expect"), Value: "100-continue"})
+			}
+		default:
+			if idempotent && !f.overH2 {
+				x.Via = "upstream-connection-dies-once"
+				x.Reply.AbortTimes = 1
+			}
 		}
 	}
-	if bt != nil {
+	if o.bt != nil {
 		x.Class = "forwarded-concurrent"
-		bt.gate(id, x.Req.Target)
 	}
-	resp := bed.RawDo(tb.gw.Addr(), x.Req, watchdog)
+	x.finish(g, append(extra, bed.RawHeader{Name: wireCase(g, "Authorization"), Value: "Bearer " + tb.token})...)
+	if f.overH2 {
+		tb.h2s.Store(f.id, x.Reply)
+	} else {
+		for _, s := range f.rt.stubs {
+			s.Script(f.id, x.Reply)
+		}
+	}
+	f.x = x
+	return f
+}
+
+// gatewayErrorObject: the answer is a well-formed Status generated by the gateway for a failed relay (5xx).
+func gatewayErrorObject(resp *bed.RawResponse) bool {
+	if resp.Status < 500 {
+		return false
+	}
+	st, kind, err := decodeStatus(resp.Header.Get("Content-Type"), resp.Body)
+	return err == nil && kind == "Status" && st.Status == metav1.StatusFailure && int(st.Code) == resp.Status && st.Reason == "KubeGatewayInternalError"
+}
+
+func judgeForwarded(r *vkit.R, tb *testbed, f *fwd, respp *bed.RawResponse) {
+	resp := *respp
+	i, id, x, overH2, upgrade, bt := f.i, f.id, f.x, f.overH2, f.upgrade, f.bt
+	h2wire := overH2 || x.Via == "h2-client"
 	r.Eval(1)
 	r.Count("exchanges", 1)
 	var seen []seenUp
-	for _, s := range tb.fwd {
+	mine := map[*bed.RawStub]bool{}
+	for _, s := range f.rt.stubs {
+		mine[s] = true
 		for _, rs := range s.Get(id) {
 			seen = append(seen, fromRaw(rs))
 		}
@@ -490,21 +880,30 @@ func runForwardedShape(r *vkit.R, tb *testbed, i int, g *vkit.Rand, big bool, up
 	}
 	if tb.h2 != nil {
 		if hs, ok := tb.h2.Get(id); ok {
-			seen = append(seen, fromH2(hs))
+			if overH2 {
+				seen = append(seen, fromH2(hs))
+			} else {
+				r.Violation("C04/forwarded/reached-foreign-cluster", fmt.Sprintf("request %s for %s arrived at the TLS+h2 stub of another cluster", id, f.rt.host), witness(i, x, &resp, nil, nil))
+			}
 		}
 		tb.h2s.Delete(id)
 	}
-	for _, s := range tb.aux {
-		if len(s.Get(id)) > 0 {
-			r.Violation("C04/forwarded/reached-foreign-cluster", fmt.Sprintf("request %s for %s arrived at a stub of another cluster", id, host), witness(i, x, &resp, nil, nil))
+	for _, s := range tb.stubs() {
+		if !mine[s] && len(s.Get(id)) > 0 {
+			r.Violation("C04/forwarded/reached-foreign-cluster", fmt.Sprintf("request %s for %s arrived at a stub of another cluster", id, f.rt.host), witness(i, x, &resp, nil, nil))
 		}
 	}
 	if !(x.Req.Method == "GET" && len(x.Req.Headers) <= 2 && x.Reply.Status == 200 && !strings.Contains(x.Req.Target, "?")) {
-		r.Distinct(vkit.Hash64(x.Req.Method, x.Req.Target, fmt.Sprint(x.Req.Headers[:len(x.Req.Headers)]), fmt.Sprint(x.ReqBody, x.Req.Chunked, x.Req.ChunkSize), fmt.Sprint(x.Reply.Status, x.Reply.Headers, x.Reply.Framing, x.ReplyBody)))
+		r.Distinct(vkit.Hash64(x.Req.Method, x.Req.Target, x.Via, x.Route, fmt.Sprint(x.Req.Headers), fmt.Sprint(x.ReqBody, x.Req.Chunked, x.Req.ChunkSize), fmt.Sprint(x.Reply.Status, x.Reply.Headers, x.Reply.Framing, x.ReplyBody)))
 	}
-	if resp.Err != nil {
+	if f.unanswered {
+		if len(seen) == 0 {
+			return
+		}
+		r.Count("pair_second_forwarded_but_unanswered", 1)
+	} else if resp.Err != nil {
 		r.Count("client_errors", 1)
-		r.Inconclusive(fmt.Sprintf("exchange %d: no parsable answer from the gateway: %v", i, resp.Err))
+		r.Inconclusive(fmt.Sprintf("exchange %d (%s, %s): no parsable answer from the gateway: %v", i, x.Via, x.Route, resp.Err))
 		return
 	}
 	if len(seen) == 0 {
@@ -521,15 +920,27 @@ func runForwardedShape(r *vkit.R, tb *testbed, i int, g *vkit.Rand, big bool, up
 				return
 			}
 		}
+		if bt != nil && bt.racingReset && (x.Req.Method == "HEAD" || gatewayErrorObject(&resp)) && resp.Status >= 500 {
+			r.Count("cancelled_by_racing_transport_reset_before_reaching_upstream", 1)
+			return
+		}
 		r.Violation(fmt.Sprintf("C04/forwarded/not-forwarded/status-%d", resp.Status),
 			fmt.Sprintf("%s %s to a proxied cluster with a ready endpoint was answered %d by the gateway and reached no upstream: %.200q", x.Req.Method, x.Req.Target, resp.Status, resp.Body), witness(i, x, &resp, nil, nil))
 		return
 	}
+	r.Count("forwarded_judged", 1)
+	r.Count("forwarded_via_"+x.Via, 1)
+	r.Count("forwarded_route_"+x.Route, 1)
+	if x.Boundary != "" {
+		r.Count("forwarded_boundary_"+x.Boundary, 1)
+	}
+	if x.Route == "fwd" && tb.fwdEvents > 0 {
+		r.Count("forwarded_after_fwd_cluster_config_event", 1)
+	}
 	if len(seen) > 1 {
-		r.Count("seen_more_than_once", 1)
+		r.Count("upstream_copies_beyond_first_judged", len(seen)-1)
 	}
 	s := seen[len(seen)-1]
-	r.Count("forwarded_judged", 1)
 	r.Count("upstream_proto_"+s.Proto, 1)
 	if overH2 {
 		r.Count("forwarded_over_tls_h2", 1)
@@ -538,52 +949,93 @@ func runForwardedShape(r *vkit.R, tb *testbed, i int, g *vkit.Rand, big bool, up
 	if x.Req.Chunked {
 		r.Count("chunked_requests", 1)
 	}
+	// a request cancelled by a racing transport reset may have reached the upstream in part; the gateway then answers with
+	// its own error object: only complete copies are compared, the answer is not the upstream's
+	cancelled := bt != nil && bt.racingReset && (gatewayErrorObject(&resp) || (x.Req.Method == "HEAD" && resp.Status >= 500))
+	if cancelled {
+		r.Count("cancelled_by_racing_transport_reset_after_reaching_upstream", 1)
+	}
+	if x.Via == "upstream-connection-dies-once" {
+		if gatewayErrorObject(&resp) || (x.Req.Method == "HEAD" && resp.Status >= 500 && len(seen) == 1) {
+			// the transport did not retry (the dead connection was a fresh one): the upstream's failure is answered with the
+			// gateway's error object; only what reached the upstream is compared
+			r.Count("upstream_died_not_retried_gateway_error_object", 1)
+			cancelled = true
+		} else if len(seen) > 1 {
+			r.Count("upstream_died_transport_retried", 1)
+		}
+	}
 	var ds []diff
 
-	// request side
-	if s.Method != x.Req.Method {
-		ds = append(ds, diff{"method", fmt.Sprintf("method %s reached the upstream as %s", x.Req.Method, s.Method)})
-	}
+	// request side: every copy that reached the upstream (a transport may retry an idempotent request on a fresh connection)
 	cp, cq := splitTarget(x.Req.Target)
-	sp, sq := splitTarget(s.Target)
-	pd, obs := comparePath(cp, sp)
-	qd := compareQuery(cq, sq, x.HostileQ)
-	if bt != nil && len(pd)+len(qd) > 0 {
-		if oid, ot, part := bt.uriOfAnother(id, len(pd) > 0, len(qd) > 0, sp, sq); oid != "" {
-			// one defect, one signature: the request went out with (part of) the URI of a request that was in flight together with it
-			ds = append(ds, diff{"uri-of-another-request", fmt.Sprintf("%s %s reached the upstream as %q: that is the %s of %s %q, which was sent at the same moment through the same gateway to the same cluster", x.Req.Method, x.Req.Target, s.Target, part, oid, ot)})
-			pd, qd = nil, nil
+	for copyNo, s := range seen {
+		var cd []diff
+		if s.Method != x.Req.Method {
+			cd = append(cd, diff{"method", fmt.Sprintf("method %s reached the upstream as %s", x.Req.Method, s.Method)})
 		}
-	}
-	ds = append(ds, pd...)
-	if obs.pct2f {
-		r.Count("observed_pct2F_in_path_decoded_not_judged", 1)
-	}
-	if !obs.canonical {
-		r.Count("observed_noncanonical_path_encoding", 1)
-	}
-	if cp != sp {
-		r.Count("observed_path_reencoded", 1)
-	}
-	ds = append(ds, qd...)
-	if cq != "" {
-		r.Count("queries_compared", 1)
-	}
-	if !s.Complete {
-		ds = append(ds, diff{"request-body/incomplete", fmt.Sprintf("the upstream could not read the request body to its end: %s", s.BodyErr)})
-	} else if s.BodyLen != int64(len(x.Req.Body)) || s.BodySHA != sha(x.Req.Body) {
-		feat := "content"
-		if s.BodyLen < int64(len(x.Req.Body)) {
-			feat = "truncated"
+		sp, sq := splitTarget(s.Target)
+		pd, obs := comparePath(cp, sp)
+		qd := compareQuery(cq, sq, x.HostileQ)
+		if bt != nil && len(pd)+len(qd) > 0 {
+			if oid, ot, part := bt.uriOfAnother(id, len(pd) > 0, len(qd) > 0, sp, sq); oid != "" {
+				// one defect, one signature: the request went out with (part of) the URI of a request that was in flight together with it
+				cd = append(cd, diff{"uri-of-another-request", fmt.Sprintf("%s %s reached the upstream as %q: that is the %s of %s %q, which was sent at the same moment through the same gateway to the same cluster", x.Req.Method, x.Req.Target, s.Target, part, oid, ot)})
+				pd, qd = nil, nil
+			}
 		}
-		ds = append(ds, diff{"request-body/" + feat, fmt.Sprintf("request body: client sent %d bytes (sha %s), upstream received %d bytes (sha %s)", len(x.Req.Body), sha(x.Req.Body)[:12], s.BodyLen, s.BodySHA[:12])})
+		cd = append(cd, pd...)
+		cd = append(cd, qd...)
+		if copyNo == 0 {
+			if obs.pct2f {
+				r.Count("observed_pct2F_in_path_decoded_not_judged", 1)
+			}
+			if !obs.canonical {
+				r.Count("observed_noncanonical_path_encoding", 1)
+			}
+			if cp != sp {
+				r.Count("observed_path_reencoded", 1)
+			}
+			if cq != "" {
+				r.Count("queries_compared", 1)
+			}
+		}
+		switch {
+		case !s.Complete && cancelled:
+		case !s.Complete:
+			cd = append(cd, diff{"request-body/incomplete", fmt.Sprintf("the upstream could not read the request body to its end: %s", s.BodyErr)})
+		case s.BodyLen != int64(len(x.Req.Body)) || s.BodySHA != sha(x.Req.Body):
+			feat := "content"
+			if s.BodyLen < int64(len(x.Req.Body)) {
+				feat = "truncated"
+			}
+			cd = append(cd, diff{"request-body/" + feat, fmt.Sprintf("request body: client sent %d bytes (sha %s), upstream received %d bytes (sha %s)", len(x.Req.Body), sha(x.Req.Body)[:12], s.BodyLen, s.BodySHA[:12])})
+		}
+		cd = append(cd, compareRequestHeaders(x, s.Headers, f.peerIP, upgrade, h2wire)...)
+		ds = append(ds, cd...)
 	}
-	ds = append(ds, compareRequestHeaders(x, s.Headers, "127.0.0.1", upgrade, overH2)...)
 	if len(x.Req.Trailers) > 0 {
 		r.Count("observed_request_trailers", 1)
 	}
+	if x.Via == "expect-continue" {
+		got100 := false
+		for _, c := range resp.Interim {
+			got100 = got100 || c == 100
+		}
+		if got100 {
+			r.Count("expect_continue_got_100", 1)
+		} else {
+			r.Count("expect_continue_without_100", 1)
+		}
+	}
 
 	// response side
+	if f.unanswered || cancelled {
+		for _, d := range ds {
+			r.Violation("C04/forwarded/"+sigPrefix(f)+d.sig, d.what, witness(i, x, &resp, &s, nil))
+		}
+		return
+	}
 	if upgrade && x.Reply.Status == 101 {
 		if string(resp.Echo) != string(x.Req.UpgradePayload) {
 			ds = append(ds, diff{"upgrade/stream-bytes", fmt.Sprintf("upgraded stream: %d bytes sent, echo of %d bytes differs", len(x.Req.UpgradePayload), len(resp.Echo))})
@@ -615,9 +1067,22 @@ func runForwardedShape(r *vkit.R, tb *testbed, i int, g *vkit.Rand, big bool, up
 	if len(bd) == 0 && resp.BodyErr != nil {
 		bd = []diff{{"response-body/framing-broken", fmt.Sprintf("the response body arrived complete but its framing is broken: %v", resp.BodyErr)}}
 	}
+	cutShort := false
+	if len(bd) > 0 && bt != nil && bt.racingReset && len(resp.Body) < len(wantBody)+4096 {
+		// A transport rebuilt while the answer is being relayed cancels the relay: the client sees a prefix of the upstream's
+		// body and a broken framing (or the gateway's error object appended). That is the reset's doing, not the relay's.
+		l := firstDiff(wantBody, resp.Body)
+		// (a cancelled relay is ended by the gateway without an error object - the same path as a client that went away -,
+		// so over a chunked or HTTP/2 hop the prefix may even arrive with intact framing)
+		if l == len(resp.Body) || abortedMidstream(wantBody, resp.Body) {
+			r.Count("relay_cut_short_by_racing_transport_reset", 1)
+			bd, cutShort = nil, true
+		}
+	}
 	ds = append(ds, bd...)
 	ds = append(ds, compareResponseHeaders(x, x.Req.Method, resp.RawHeaders, decoded)...)
-	if x.Req.Method != "HEAD" {
+	// (an HTTP/1.0 client cannot be sent a chunked body, hence no trailers)
+	if x.Req.Method != "HEAD" && x.Via != "h1.0-client" && !cutShort {
 		for _, tr := range x.Reply.Trailers {
 			r.Count("response_trailers_checked", 1)
 			if got := resp.Trailer.Values(tr.Name); len(got) != 1 || got[0] != tr.Value {
@@ -628,26 +1093,36 @@ func runForwardedShape(r *vkit.R, tb *testbed, i int, g *vkit.Rand, big bool, up
 	r.Count(fmt.Sprintf("upstream_status_%d", x.Reply.Status), 1)
 	r.Count("reply_framing_"+x.Reply.Framing, 1)
 
-	pathFeat := ""
-	if bt != nil {
-		pathFeat = "concurrent/"
-	} else if upgrade {
-		pathFeat = "upgrade/"
-	} else if overH2 {
-		pathFeat = "h2/"
-	}
 	for _, d := range ds {
-		r.Violation("C04/forwarded/"+pathFeat+d.sig, d.what, witness(i, x, &resp, &s, nil))
+		r.Violation("C04/forwarded/"+sigPrefix(f)+d.sig, fmt.Sprintf("%s [client %s, route %s]", d.what, x.Via, x.Route), witness(i, x, &resp, &s, nil))
 	}
 	if len(ds) == 0 && r.WantSample() && i%53 == 0 {
-		r.Sample(map[string]interface{}{"kind": "forwarded", "client_target": x.Req.Target, "upstream_target": s.Target, "method": x.Req.Method, "request_headers": len(x.Req.Headers), "request_body": len(x.Req.Body),
+		r.Sample(map[string]interface{}{"kind": "forwarded", "via": x.Via, "route": x.Route, "client_target": x.Req.Target, "upstream_target": s.Target, "method": x.Req.Method, "request_headers": len(x.Req.Headers), "request_body": len(x.Req.Body),
 			"upstream_status": x.Reply.Status, "framing": x.Reply.Framing, "reply_body": x.ReplyBody, "client_headers": resp.RawHeaders})
 	}
+}
+
+// sigPrefix: the structural mode of the exchange goes into the signature (they use different code in the gateway); the
+// client variant and the route are named in the text and the witness only, so that one defect keeps one signature.
+func sigPrefix(f *fwd) string {
+	switch {
+	case f.bt != nil:
+		return "concurrent/"
+	case f.upgrade:
+		return "upgrade/"
+	case f.overH2:
+		return "h2/"
+	}
+	return ""
 }
 
 func runTerminated(r *vkit.R, tb *testbed, i int, g *vkit.Rand, big bool) {
 	id := fmt.Sprintf("c04-%d", i)
 	class := g.Pick(termClasses)
+	if os.Getenv("C04_PROF") != "" {
+		t0 := time.Now()
+		defer func() { r.Count("prof_ms_terminated_"+class, int(time.Since(t0).Milliseconds())) }()
+	}
 	host, path := tb.hFwd, ""
 	switch class {
 	case "429":
@@ -660,9 +1135,39 @@ func runTerminated(r *vkit.R, tb *testbed, i int, g *vkit.Rand, big bool) {
 		host = tb.hDis
 	case "503-unhealthy":
 		host = tb.hUnh
+	case "429-policy":
+		host, path = tb.hMix, fill(g, g.Pick(mix429Templates))
+	case "429-saturated":
+		host, path = tb.hSat, fill(g, g.Pick(nonEventTemplates))
+	case "502-upstream-refused":
+		host = tb.hDead
+	case "503-deleted-cluster":
+		host = tb.hFlap
+		if tb.flapPresent {
+			if sr := tb.gw.Delete(tb.hFlap); sr.Err != nil || sr.Panic != nil {
+				r.Inconclusive(fmt.Sprintf("controller did not delete %s: %+v", tb.hFlap, sr))
+				return
+			}
+			tb.flapPresent = false
+			r.Count("flap_cluster_deleted", 1)
+		}
 	}
 	x := genRequest(g, id, host, big, path)
 	x.Class = class
+	// unusual but legal clients
+	via := "h1"
+	switch k := g.Intn(100); {
+	case k < 75:
+	case k < 88:
+		via = "h1.0-client"
+		x.Req.Proto = "HTTP/1.0"
+		if x.Req.Chunked {
+			x.Req.Chunked, x.Req.SendCL, x.Req.Trailers = false, true, nil
+		}
+	default:
+		via = "h2-client"
+	}
+	x.Via = via
 	// negotiation of the error body
 	if g.Chance(0.5) {
 		x.Req.Headers = append(x.Req.Headers, bed.RawHeader{Name: "Accept", Value: g.Pick([]string{"application/json", "*/*", "application/vnd.kubernetes.protobuf", "application/yaml", "text/html",
@@ -682,12 +1187,61 @@ func runTerminated(r *vkit.R, tb *testbed, i int, g *vkit.Rand, big bool) {
 		extra = append(extra, bed.RawHeader{Name: "Impersonate-Group", Value: "system:masters"})
 	}
 	x.finish(g, append(extra, auth)...)
+	// 429-saturated: the only slot of the cluster's limit is taken by a request the upstream holds until released
+	var release func()
+	if class == "429-saturated" {
+		idA := id + "-holder"
+		gate := make(chan struct{})
+		tb.sSat.Script(idA, &bed.RawReply{Status: 200, Headers: []bed.RawHeader{{Name: "Content-Type", Value: "text/plain"}}, Body: []byte("held"), Framing: "cl", Gate: gate})
+		holder := &bed.RawRequest{Method: "GET", Target: "/api/v1/namespaces/default/pods", Host: tb.hSat,
+			Headers: []bed.RawHeader{{Name: "Authorization", Value: "Bearer " + tb.token}, {Name: bed.IDHeader, Value: idA}}}
+		done := make(chan bed.RawResponse, 1)
+		go func() { done <- bed.RawDo(tb.gw.Addr(), holder, watchdog) }()
+		released := false
+		release = func() {
+			if released {
+				return
+			}
+			released = true
+			close(gate)
+			ra := <-done
+			tb.sSat.Forget(idA)
+			if ra.Err != nil || ra.Status != 200 {
+				r.Count("saturating_request_not_answered_200", 1)
+			}
+			// the slot is free again: the next request is forwarded (judged by C05; counted here)
+			idC := id + "-after"
+			after := &bed.RawRequest{Method: "GET", Target: "/api/v1/namespaces/default/pods", Host: tb.hSat,
+				Headers: []bed.RawHeader{{Name: "Authorization", Value: "Bearer " + tb.token}, {Name: bed.IDHeader, Value: idC}}}
+			rc := bed.RawDo(tb.gw.Addr(), after, watchdog)
+			if len(tb.sSat.Get(idC)) > 0 && rc.Status == 200 {
+				r.Count("saturated_slot_free_again_forwarded", 1)
+			} else {
+				r.Count("saturated_slot_still_refused_after_release", 1)
+			}
+			tb.sSat.Forget(idC)
+		}
+		defer release()
+		if !vkit.WaitFor(watchdog, func() bool { return len(tb.sSat.Get(idA)) > 0 }) {
+			r.Inconclusive("the request that saturates the max-in-flight=1 limit did not reach the upstream within the watchdog")
+			return
+		}
+	}
 	before, beforeP := tb.activity()
-	resp := bed.RawDo(tb.gw.Addr(), x.Req, watchdog)
+	var resp bed.RawResponse
+	if via == "h2-client" {
+		resp = tb.front.H2Do(x.Req, watchdog)
+	} else {
+		resp = bed.RawDo(tb.gw.Addr(), x.Req, watchdog)
+	}
 	after, afterP := tb.activity()
+	if release != nil {
+		release()
+	}
 	r.Eval(1)
 	r.Count("exchanges", 1)
 	r.Count("terminated_"+class, 1)
+	r.Count("terminated_via_"+via, 1)
 	r.Distinct(vkit.Hash64(class, x.Req.Method, x.Req.Target, fmt.Sprint(x.Req.Headers), fmt.Sprint(x.ReqBody, x.Req.Chunked)))
 	if resp.Err != nil {
 		r.Count("client_errors", 1)
@@ -712,7 +1266,14 @@ func runTerminated(r *vkit.R, tb *testbed, i int, g *vkit.Rand, big bool) {
 		}
 		r.Violation("C04/terminated/"+class+"/forwarded", fmt.Sprintf("%s %s (%s) was answered %d by the gateway but an upstream received %s", x.Req.Method, x.Req.Target, class, resp.Status, what), w())
 	}
-	wantStatus := map[string]int{"429": 429, "429-events": 429, "503-unknown-host": 503, "503-disabled": 503, "503-unhealthy": 503, "403-impersonation": 403, "401": 401, "500-malformed-impersonation": 500}[class]
+	wantStatus := map[string]int{"429": 429, "429-events": 429, "503-unknown-host": 503, "503-disabled": 503, "503-unhealthy": 503, "403-impersonation": 403, "401": 401, "500-malformed-impersonation": 500,
+		"429-policy": 429, "429-saturated": 429, "503-deleted-cluster": 503, "502-upstream-refused": 502}[class]
+	if class == "502-upstream-refused" && resp.Status == 503 {
+		// the refused connection made the dispatcher ask for a health check; once the endpoint is known to be unhealthy the
+		// answer is the ordinary "no ready endpoint"
+		wantStatus = 503
+		r.Count("terminated_502-upstream-refused_already_unhealthy_503", 1)
+	}
 	if class == "500-malformed-impersonation" {
 		// answered by the generic InternalError helper in plain text; its format is not part of the statement (DESIGN C02/C04)
 		if resp.Status < 400 {
@@ -735,15 +1296,19 @@ func runTerminated(r *vkit.R, tb *testbed, i int, g *vkit.Rand, big bool) {
 	// Retry-After
 	ra := resp.Header.Values("Retry-After")
 	switch class {
-	case "429":
+	case "429", "429-policy", "429-saturated":
 		if len(ra) != 1 || ra[0] != "1" {
-			r.Violation("C04/terminated/429/retry-after", fmt.Sprintf("flow-controlled %s %s: Retry-After %q, expected \"1\"", x.Req.Method, x.Req.Target, ra), w())
+			r.Violation("C04/terminated/"+class+"/retry-after", fmt.Sprintf("flow-controlled %s %s: Retry-After %q, expected \"1\"", x.Req.Method, x.Req.Target, ra), w())
 		}
 	case "429-events":
 		if len(ra) != 0 {
 			r.Violation("C04/terminated/429-events/retry-after-present", fmt.Sprintf("flow-controlled events request %s %s: Retry-After %q, expected none", x.Req.Method, x.Req.Target, ra), w())
 		}
-	case "503-unknown-host", "503-disabled", "503-unhealthy":
+	case "502-upstream-refused":
+		if resp.Status == 503 && (len(ra) != 1 || ra[0] != "60") {
+			r.Violation("C04/terminated/"+class+"/retry-after", fmt.Sprintf("%s answered 503: Retry-After %q, expected \"60\"", class, ra), w())
+		}
+	case "503-unknown-host", "503-disabled", "503-unhealthy", "503-deleted-cluster":
 		if len(ra) != 1 || ra[0] != "60" {
 			r.Violation("C04/terminated/"+class+"/retry-after", fmt.Sprintf("%s: Retry-After %q, expected \"60\"", class, ra), w())
 		}
